@@ -21,6 +21,8 @@ import time
 from . import build
 
 HERE = os.path.dirname(os.path.dirname(os.path.abspath(__file__)))
+# self-test runs against a patched scratch copy (XV_REPO) write their evidence / replays elsewhere
+OUT = os.environ.get("XV_OUT") or HERE
 PY = build.PY
 KNOWN_FILE = os.path.join(HERE, "known_findings.txt")
 NCPU = os.cpu_count() or 4
@@ -103,7 +105,7 @@ def run_jobs(sc, prop, jobs, log):
 
 
 def write_replay(prop, issue):
-    d = os.path.join(HERE, "replays", prop)
+    d = os.path.join(OUT, "replays", prop)
     os.makedirs(d, exist_ok=True)
     body = json.dumps(issue, indent=1, sort_keys=True, default=repr)
     h = hashlib.sha1(json.dumps([issue.get("what"), issue.get("case"), issue.get("config")],
@@ -209,8 +211,8 @@ def main(argv=None):
         "wall_s": round(time.time() - t0, 2),
         "violations": len(seen),
     }
-    os.makedirs(os.path.join(HERE, "evidence"), exist_ok=True)
-    epath = os.path.join(HERE, "evidence", f"{prop}.json")
+    os.makedirs(os.path.join(OUT, "evidence"), exist_ok=True)
+    epath = os.path.join(OUT, "evidence", f"{prop}.json")
     with open(epath, "w") as fh:
         json.dump(ev, fh, indent=1, sort_keys=True, default=repr)
     val = validate_evidence(epath)
